@@ -262,10 +262,27 @@ type FlushCtl struct {
 	MkDiscard    func() sim.Msg
 	MkRestart    func() sim.Msg
 	OnRestarted  func()
+	// At2 > 0: a second DiscardTransactions is sent At2 cycles after the first restart was acknowledged (the component is
+	// then flushed from a non-initial state: already flushed and restarted once, serving later traffic)
+	At2          int
+	OnRestarted2 func()
+	sent2        bool
+	due2         int
 }
 
 // Active reports whether a flush has been sent and the restart not yet acknowledged.
-func (f *FlushCtl) Active() bool { return f.sent && f.Acks < 2 }
+func (f *FlushCtl) Active() bool { return f.sent && f.Acks < 2 || f.sent2 && f.Acks < 4 }
+
+// WantAcks is the number of acknowledgements a complete run of the protocol produces.
+func (f *FlushCtl) WantAcks() int {
+	if f.At <= 0 {
+		return 0
+	}
+	if f.At2 > 0 {
+		return 4
+	}
+	return 2
+}
 
 // Step advances the protocol; returns true while work is pending.
 func (f *FlushCtl) Step() bool {
@@ -277,11 +294,16 @@ func (f *FlushCtl) Step() bool {
 		f.sink = &Sink{W: f.W, Port: f.Port, Tag: "ctl", NoChoice: true}
 		f.sink.Handle = func(m sim.Msg) {
 			f.Acks++
-			if f.Acks == 1 {
+			if f.Acks%2 == 1 {
 				f.feed.Add(f.MkRestart(), false)
 				f.feed.Q[len(f.feed.Q)-1].Ready += f.RestartDelay
-			} else if f.Acks == 2 && f.OnRestarted != nil {
-				f.OnRestarted()
+			} else if f.Acks == 2 {
+				f.due2 = f.W.Cycle() + f.At2
+				if f.OnRestarted != nil {
+					f.OnRestarted()
+				}
+			} else if f.Acks == 4 && f.OnRestarted2 != nil {
+				f.OnRestarted2()
 			}
 		}
 	}
@@ -289,6 +311,14 @@ func (f *FlushCtl) Step() bool {
 	if !f.sent {
 		if f.W.Cycle() >= f.At {
 			f.sent = true
+			f.feed.Add(f.MkDiscard(), false)
+			f.feed.Q[len(f.feed.Q)-1].Ready = f.W.Cycle()
+		}
+		pending = true
+	}
+	if f.At2 > 0 && !f.sent2 {
+		if f.Acks >= 2 && f.W.Cycle() >= f.due2 {
+			f.sent2 = true
 			f.feed.Add(f.MkDiscard(), false)
 			f.feed.Q[len(f.feed.Q)-1].Ready = f.W.Cycle()
 		}
